@@ -2,10 +2,13 @@ package wire
 
 import (
 	"bytes"
+	"embed"
 	"errors"
 	"runtime"
 	"strconv"
 	"strings"
+	"testing/fstest"
+	"time"
 
 	"github.com/gofiber/fiber/v3"
 	"github.com/valyala/fasthttp"
@@ -29,15 +32,27 @@ const (
 	cfgReadBuf
 	cfgErrSink
 	cfgBodyNeg
+	cfgErrHelpers
 	nCfg
 )
 
-var cfgNames = [nCfg]string{"default", "customctx", "methods", "immutable", "unescape", "bodylimit1k", "readbuf512", "errhandler-accessors", "bodylimit-neg1"}
+// what the error handler of the errhandler-helpers configuration does with a 404 / 405
+const (
+	errRestart  = iota // c.Path("/errpage"); c.RestartRouting()  (serve the error page by an internal redirect)
+	errMethod          // c.Method("GET") as well, then the same
+	errRedirect        // c.Redirect().To("/errpage")
+	errSendFile        // c.SendFile from an in-memory file system
+	errRoute           // c.Route(), c.Params(...), then the plain reply
+	nErrModes
+)
+
+var cfgNames = [nCfg]string{"default", "customctx", "methods", "immutable", "unescape", "bodylimit1k", "readbuf512", "errhandler-accessors", "bodylimit-neg1", "errhandler-helpers"}
 
 type appOpts struct {
 	kind         int
 	ipValidation bool
 	trustProxy   bool
+	errMode      int // errhandler-helpers only
 }
 
 var (
@@ -76,7 +91,7 @@ func (c *customCtx) Params(key string, defaultValue ...string) string {
 }
 
 func buildSinkApp(o appOpts) *fiber.App {
-	cfg := fiber.Config{ErrorHandler: sinkErrorHandler(o.kind == cfgErrSink), EnableIPValidation: o.ipValidation}
+	cfg := fiber.Config{ErrorHandler: sinkErrorHandler(o), EnableIPValidation: o.ipValidation}
 	switch o.kind {
 	case cfgMethods:
 		cfg.RequestMethods = append([]string(nil), customMethods...)
@@ -102,11 +117,13 @@ func buildSinkApp(o appOpts) *fiber.App {
 			return &customCtx{DefaultCtx: *fiber.NewDefaultCtx(app)}
 		})
 	}
-	app.Use(func(c fiber.Ctx) error {
-		if c.Method() == fiber.MethodHead {
+	// (no global middleware: with one, every request has a matched route, and what a context does
+	// when NO route matched - the state an error handler sees on a 404 - is never reached)
+	app.All("/errpage", func(c fiber.Ctx) error {
+		if c.Request().Header.IsHead() {
 			c.Set("X-Is-Head", "1")
 		}
-		return c.Next()
+		return c.Status(fiber.StatusNotFound).SendString("error page")
 	})
 	app.All("/warm", func(c fiber.Ctx) error { return c.SendString("warm") })
 	app.All("/ks", sink)
@@ -116,7 +133,8 @@ func buildSinkApp(o appOpts) *fiber.App {
 	return app
 }
 
-func sinkErrorHandler(accessors bool) fiber.ErrorHandler {
+func sinkErrorHandler(o appOpts) fiber.ErrorHandler {
+	accessors := o.kind == cfgErrSink
 	return func(c fiber.Ctx, err error) error {
 		code := fiber.StatusInternalServerError
 		var fe *fiber.Error
@@ -125,6 +143,33 @@ func sinkErrorHandler(accessors bool) fiber.ErrorHandler {
 		}
 		if c.Request().Header.IsHead() {
 			c.Set("X-Is-Head", "1")
+		}
+		if o.kind == cfgErrHelpers && (code == fiber.StatusNotFound || code == fiber.StatusMethodNotAllowed) && c.Path() != "/errpage" {
+			// an error handler that uses the context's helpers for the "not found" replies
+			switch o.errMode {
+			case errRestart:
+				c.Path("/errpage")
+				return c.RestartRouting()
+			case errMethod:
+				c.Method(fiber.MethodGet)
+				c.Path("/errpage")
+				return c.RestartRouting()
+			case errRedirect:
+				return c.Redirect().To("/errpage")
+			case errSendFile:
+				e2 := c.SendFile("hello.txt", fiber.SendFile{FS: sinkMapFS, CacheDuration: -1})
+				if c.Request().Header.IsHead() {
+					c.Set("X-Is-Head", "1") // SendFile starts the response header afresh
+				}
+				if e2 != nil {
+					return c.Status(code).SendString(e2.Error())
+				}
+				return nil
+			case errRoute:
+				_ = c.Route().Path
+				_ = c.Params("a")
+				_ = c.Params("*")
+			}
 		}
 		if accessors {
 			// what a logging error handler does
@@ -170,7 +215,16 @@ type sinkItem struct {
 	Tags []string `query:"tags" form:"tags" json:"tags" header:"tags" cookie:"tags"`
 }
 
-const nOps = 12
+const nOps = 16
+
+// in-memory file systems for SendFile: a map type (not comparable with ==) and an embedded one
+var sinkMapFS = fstest.MapFS{
+	"hello.txt":    {Data: []byte("hello from the map file system\n")},
+	"dir/data.bin": {Data: bytes.Repeat([]byte("0123456789abcdef"), 64)},
+}
+
+//go:embed testdata
+var sinkEmbedFS embed.FS
 
 func validRid(s string) bool {
 	if len(s) == 0 || len(s) > 32 {
@@ -359,6 +413,9 @@ func sink(c fiber.Ctx) error {
 	if rid != "" {
 		c.Set("X-Rid", rid)
 	}
+	if c.Request().Header.IsHead() {
+		c.Set("X-Is-Head", "1")
+	}
 	summary := "rid=" + rid + ";o=" + o.String()
 	c.Set("X-Outcome", o.String())
 
@@ -394,6 +451,27 @@ func sink(c fiber.Ctx) error {
 		return c.Redirect().Back("/fallback")
 	case 10:
 		return c.Redirect().WithInput().To("/ks")
+	case 12, 13, 14, 15:
+		var err error
+		switch op {
+		case 12:
+			err = c.SendFile("hello.txt", fiber.SendFile{FS: sinkMapFS, CacheDuration: -1})
+		case 13:
+			err = c.SendFile("missing.txt", fiber.SendFile{FS: sinkMapFS, CacheDuration: -1})
+		case 14:
+			err = c.SendFile("dir/data.bin", fiber.SendFile{FS: sinkMapFS, Compress: true, ByteRange: true, Download: true, MaxAge: 60, CacheDuration: 10 * time.Second})
+		default:
+			err = c.SendFile("testdata/hello.txt", fiber.SendFile{FS: sinkEmbedFS, ByteRange: true, CacheDuration: -1})
+		}
+		// SendFile starts the response header afresh: mark again what the oracles read
+		if c.Request().Header.IsHead() {
+			c.Set("X-Is-Head", "1")
+		}
+		if rid != "" {
+			c.Set("X-Rid", rid)
+		}
+		c.Set("X-Outcome", o.String())
+		return err
 	case 11:
 		c.Location("/created/1")
 		return c.Status(fiber.StatusCreated).SendString(summary)
@@ -891,6 +969,19 @@ func runSurvive(e *ev.Env) {
 	one("bind-negative-slice-index-cookie", appOpts{}, get("/ks?rid=c15", "Cookie: items.-1.name=x\r\n"), 200)
 	one("bind-slice-index-15999", appOpts{}, get("/ks?rid=c16&items.15999.name=x"), 200)
 	one("bind-slice-index-above-schema-limit", appOpts{}, get("/ks?rid=c17&items.16001.name=x&items.1000000.qty=1"), 200)
+	for m := 0; m < nErrModes; m++ {
+		one("errhandler-helpers-404-mode-"+itoa(m), appOpts{kind: cfgErrHelpers, errMode: m}, get("/c/notint?rid=c18"), 0)
+		one("errhandler-helpers-404-shared-prefix-mode-"+itoa(m), appOpts{kind: cfgErrHelpers, errMode: m}, get("/ksx/y?rid=c19"), 0)
+	}
+	for op := 12; op < nOps; op++ {
+		req := get("/ks?rid=sf&op=" + itoa(op))
+		e.Corpus("sendfile-twice-op-"+itoa(op), func(c *ev.Case) {
+			// the same file twice on one connection: the second request finds the stored handler
+			surviveCase(e, c, appOpts{}, []*rq{{Rid: "sf"}, {Rid: "sf"}}, append(append([]byte(nil), req...), req...), false, nil)
+		})
+		one("sendfile-range-op-"+itoa(op), appOpts{}, get("/ks?rid=sf&op="+itoa(op), "Range: bytes=2-5\r\n"), 0)
+		one("sendfile-head-op-"+itoa(op), appOpts{}, []byte("HEAD /ks?rid=sf&op="+itoa(op)+" HTTP/1.1\r\nHost: x\r\n\r\n"), 0)
+	}
 	one("head-body-too-large", appOpts{}, []byte("HEAD /ks HTTP/1.1\r\nHost: x\r\nContent-Length: 99999999\r\n\r\n"), 0)
 	flashReq := func(v []byte) []byte {
 		return append(append([]byte("GET /ks?rid=c5 HTTP/1.1\r\nHost: x\r\nCookie: fiber_flash="), v...), "\r\n\r\n"...)
@@ -918,7 +1009,7 @@ func runSurvive(e *ev.Env) {
 	}
 	e.Cases("pipe", nPipe, func(c *ev.Case) {
 		r := c.R
-		o := appOpts{kind: r.Intn(nCfg), ipValidation: r.Bool(), trustProxy: r.Bool()}
+		o := appOpts{kind: r.Intn(nCfg), ipValidation: r.Bool(), trustProxy: r.Bool(), errMode: r.Intn(nErrModes)}
 		g := &genCtx{r: r, methods: o.methods(), rbuf: o.readBuf(), blimit: o.bodyLimit()}
 		g.maxHdr = o.readBuf() - 120
 		g.maxBody = 0
@@ -987,7 +1078,7 @@ func runSurvive(e *ev.Env) {
 	}
 	e.Cases("repeat", e.N(320, 8000), func(c *ev.Case) {
 		r := c.R
-		o := appOpts{kind: r.Intn(nCfg), ipValidation: r.Bool(), trustProxy: r.Bool()}
+		o := appOpts{kind: r.Intn(nCfg), ipValidation: r.Bool(), trustProxy: r.Bool(), errMode: r.Intn(nErrModes)}
 		g := &genCtx{r: r, methods: o.methods(), rbuf: o.readBuf(), blimit: o.bodyLimit(), maxHdr: o.readBuf() - 120}
 		if o.kind == cfgBodyLimit {
 			g.maxBody = 900
